@@ -35,10 +35,18 @@ type mangler struct {
 }
 
 func newMangler() *mangler {
-	return &mangler{
+	m := &mangler{
 		names: make(map[string]map[string]string),
 		taken: make(map[string]struct{}),
 	}
+
+	// Native types are mangled to goCase of their Thrift names. A user-defined
+	// type called "String" or "Byte" must not be given the same mangled name,
+	// or its helper functions collide with those of the native type.
+	for _, native := range []string{"bool", "byte", "i16", "i32", "i64", "double", "string", "binary"} {
+		m.taken[goCase(native)] = struct{}{}
+	}
+	return m
 }
 
 func (m *mangler) MangleType(spec compile.TypeSpec) string {
